@@ -190,6 +190,27 @@ def run(ctx):
             fail(f"exception-Stepper-{type(e).__name__}", f"Stepper raised {type(e).__name__}: {e}", case)
     ctx.streams["amplitudes(all outputs)"] = len(jobs)
 
+    # ------------------------------------------------------------ the symbolic option of SLOS (a second entry point)
+    sym_jobs = [(c, s_, out) for (c, s_), out in zip(jobs, outs) if c.m <= 3 and 1 <= sum(s_) <= 2][:ctx.n(12, 80)]
+    for c, s_, out in sym_jobs:
+        case = {"circuit": c.describe(), "input": s_, "engine": "SLOSBackend(use_symbolic=True)"}
+        ctx.case(["symbolic", gen.qmat_key(c.U), s_], not c.symmetric(), case)
+        ctx.count("engine.SLOS(symbolic)")
+        try:
+            b = pcvl.SLOSBackend(use_symbolic=True)
+            b.set_circuit(built.get(id(c)) or c.build())
+            b.set_input_state(BS_(s_))
+            for e in out:
+                t, anum, nrm = e[0], un_qi(e[1]), e[2]
+                a = complex(b.prob_amplitude(BS_(t)))
+                if not close(a * math.sqrt(nrm), anum, 1e-9 * math.sqrt(nrm)):
+                    fail("amplitude-SLOS(symbolic)", "SLOSBackend(use_symbolic=True).prob_amplitude differs from "
+                         "perm(U[t|s])/sqrt(prod s! prod t!)", {**case, "output": t}, str(anum / math.sqrt(nrm)), str(a))
+                    break
+        except Exception as e:
+            fail(f"exception-SLOS(symbolic)-{type(e).__name__}", f"SLOS(symbolic) raised {type(e).__name__}: {e}", case)
+    ctx.streams["SLOS with use_symbolic=True"] = len(sym_jobs)
+
     # ------------------------------------------------------------ different photon numbers, white-box pieces
     wb = []
     for i in range(ctx.n(60, 600)):
